@@ -72,9 +72,9 @@ func genJob(t *rapid.T) Job {
 	case k == 5:
 		return Job{Kind: "settle", P: bgen.Operand(t, rapid.Bool().Draw(t, "curved"), false), Op: rapid.IntRange(0, 3).Draw(t, "rule")}
 	case k == 6:
-		return Job{Kind: "stroke", P: gen.Path(t, gen.DefaultOpts()), Op: rapid.IntRange(0, 8).Draw(t, "capjoin"), F: []float64{float64(rapid.IntRange(1, 12).Draw(t, "w")) / 4}}
+		return Job{Kind: "stroke", P: gen.Path(t, gen.DefaultOpts()), Op: rapid.IntRange(0, 8).Draw(t, "capjoin"), F: []float64{float64(rapid.IntRange(1, 12).Draw(t, "w")) / 4, strokeTols[rapid.IntRange(0, len(strokeTols)-1).Draw(t, "stol")]}}
 	case k == 7:
-		return Job{Kind: "offset", P: bgen.Operand(t, true, true), F: []float64{float64(rapid.IntRange(-8, 8).Draw(t, "d")) / 8}}
+		return Job{Kind: "offset", P: bgen.Operand(t, true, true), F: []float64{float64(rapid.IntRange(-8, 8).Draw(t, "d")) / 8, strokeTols[rapid.IntRange(0, len(strokeTols)-1).Draw(t, "otol")]}}
 	case k == 8:
 		return Job{Kind: "flatten", P: gen.Path(t, gen.DefaultOpts()), F: []float64{[]float64{0.5, 0.1, 0.01}[rapid.IntRange(0, 2).Draw(t, "tol")]}}
 	case k == 9:
@@ -106,6 +106,16 @@ var joins = []canvas.Joiner{canvas.BevelJoin, canvas.RoundJoin, canvas.MiterJoin
 var rules = []canvas.FillRule{canvas.NonZero, canvas.EvenOdd, canvas.Positive, canvas.Negative}
 
 // run executes a job on freshly built inputs and returns its result; panics are part of the result (a call must behave the same way alone and in company).
+// tolerances of the Stroke and Offset jobs: the package default, coarser and finer ones
+var strokeTols = []float64{0.01, 0.01, 0.1, 0.001, 0.0005}
+
+func tolOf(j Job) float64 {
+	if len(j.F) > 1 {
+		return j.F[1]
+	}
+	return 0.01 // cases recorded before the tolerance was generated
+}
+
 func run(j Job) (res string) {
 	defer func() {
 		if r := recover(); r != nil {
@@ -130,9 +140,9 @@ func run(j Job) (res string) {
 	case "settle":
 		return j.P.Build().Settle(rules[j.Op]).String()
 	case "stroke":
-		return j.P.Build().Stroke(j.F[0], caps[j.Op%3], joins[j.Op/3], 0.01).String()
+		return j.P.Build().Stroke(j.F[0], caps[j.Op%3], joins[j.Op/3], tolOf(j)).String()
 	case "offset":
-		return j.P.Build().Offset(j.F[0], 0.01).String()
+		return j.P.Build().Offset(j.F[0], tolOf(j)).String()
 	case "flatten":
 		return j.P.Build().Flatten(j.F[0]).String()
 	case "dash":
@@ -356,5 +366,7 @@ func checkCase(c Case, r *vf.R) error {
 }
 
 func TestConcurrent(t *testing.T) {
-	vf.Run(t, vf.Prop[Case]{Sub: "concurrent", Gen: genCase, Check: checkCase, Cases: vf.N(150, 1500)})
+	vf.Run(t, vf.Prop[Case]{Sub: "concurrent", Gen: genCase, Check: checkCase, Cases: vf.N(150, 1500),
+		// a race report is never what finding F20a (differing results on coinciding contours) describes
+		OtherFailure: func(id string, err error) bool { return strings.Contains(err.Error(), "race detector reports") }})
 }
